@@ -127,6 +127,14 @@ impl Monitor for C14 {
         if !ev.out.ok {
             return out;
         }
+        // the constants a swap is charged by are the constants that were configured: tier creation, preset changes, pool
+        // creation and constant changes store exactly their arguments (resp. the tier's preset)
+        for v in ev.ix_views() {
+            if let Some(d) = crate::mon::setters::echo_mismatch(&v, true) {
+                out.push(viol("constants_not_stored_as_configured", ev.idx, d));
+                return out;
+            }
+        }
         // state invariant after every transaction: the stored accumulator never exceeds the configured maximum
         for m in ev.tx.ixs.iter().flat_map(|i| i.accounts.iter()) {
             if let (Some(pre_o), Some(post_o)) = (ev.pre.get(&m.pubkey).filter(|a| a.owner == crate::ix::wp()).and_then(|a| decode::oracle(&a.data)), ev.post.get(&m.pubkey).filter(|a| a.owner == crate::ix::wp()).and_then(|a| decode::oracle(&a.data))) {
